@@ -25,6 +25,9 @@ ERRORS = {
     "undefined-operand-unsized-indirect": ("lda (verif_no_such_symbol),y", None, "node"),
     "undefined-immediate-unsized": ("lda #verif_no_such_symbol + 1", None, "node"),
     "undefined-jump-target": ("jmp verif_no_such_symbol", None, "node"),
+    # long source lines (a data table, a long trailing comment): the quoted text is still that line's text, all of it
+    "undefined-data-on-a-long-line": (".dw " + ", ".join(hex(0x1000 + 7 * k) for k in range(40)) + ", verif_no_such_symbol", None, "node"),
+    "undefined-operand-before-a-long-comment": ("lda.w verif_no_such_symbol ; " + "long trailing comment " * 12 + "end", None, "node"),
     "bad-size": ("lda.q 0x10", 4, "scan"),
     "bad-size-eol": ("   sta.", 7, "scan"),
     "bad-index": ("lda 0x10, q", 10, "scan"),
@@ -53,12 +56,27 @@ def top_level_positions(src):
     return pos
 
 
+# the erroneous statement as a line of a macro body (directly, or inside a block / conditional of the body), the macro applied further down -- once or
+# several times, also from another macro: the error names the BODY line, where the statement is written, not the line of the application
+MACRO_BASES = [
+    ("*=0x008000\n.macro store(v) {\n  lda #v\n", "  rts\n}\nnop\n; comment\nstore(0x12)\nrts\n"),
+    ("*=0x008000\n.macro store(v) {\n  {\n    lda #v\n", "  }\n}\n\n\nstore(1)\nstore(2)\n"),
+    ("*=0x008000\n.macro inner(v) {\n", "}\n.macro outer(v) {\n  nop\n  inner(v)\n}\n/* block\n comment */\nouter(3)\n"),
+    ("*=0x008000\n.macro maybe(v) {\n  .if v {\n", "  }\n}\nmaybe(1)\n"),
+]
+
+
 def check(case):
-    base = BASES[case["base"]]
     stmt, col, kind = ERRORS[case["error"]]
-    lines = base.split("\n")
-    at = case["line"]
-    new = lines[:at] + [stmt] + lines[at:]
+    if "macro" in case:
+        head, tail = MACRO_BASES[case["macro"]]
+        at = head.count("\n")
+        new = (head + stmt + "\n" + tail).split("\n")
+    else:
+        base = BASES[case["base"]]
+        lines = base.split("\n")
+        at = case["line"]
+        new = lines[:at] + [stmt] + lines[at:]
     d = tempfile.mkdtemp(prefix="vfC17")
     try:
         if case["included"]:
@@ -93,6 +111,11 @@ def check(case):
 
 
 def gen(tier, rng):
+    for m in range(len(MACRO_BASES)):
+        for err in ERRORS:
+            for included in (False, True):
+                if tier == "thorough" or (m + len(err) + included) % 2 == 0:
+                    yield {"macro": m, "error": err, "included": included}
     for b, base in enumerate(BASES):
         positions = top_level_positions(base)
         for err in ERRORS:
@@ -115,7 +138,7 @@ def run(tier, seed):
                 kinds.add(k)
                 failures.append({"ident": f"bounded/error-location/{c['error']}", "script": "b_C17.py", "payload": c, "observed": f})
     return {"evaluations": len(cases), "distinct_nontrivial": len({str(c) for c in cases}),
-            "rule": "13 erroneous statement kinds (undefined symbol in operand with and without size suffix / data directive, bad size suffix incl. at end of line, bad index register, "
+            "rule": "15 erroneous statement kinds (two on lines longer than 250 characters) (undefined symbol in operand with and without size suffix / data directive, bad size suffix incl. at end of line, bad index register, "
                     "unterminated string in .ascii / .db) x every top-level line position (thorough) of 3 base programs with comments, blank lines, blocks, macro "
                     "definitions, multi-line comments, a form feed inside a comment x main file / included file; checks file, zero-based line, quoted text, column",
             "samples": cases[:2], "failures": failures}
